@@ -47,6 +47,9 @@ pub struct Cfg {
     pub compile_explicit: bool,
     pub compile_out: CompileOut,
     pub exec_stdin: bool,
+    /// compile reads the AST from a file whose extension names ANOTHER format; the explicit
+    /// --input-format must win
+    pub mislead: bool,
 }
 
 pub fn all_cfgs() -> Vec<Cfg> {
@@ -56,7 +59,10 @@ pub fn all_cfgs() -> Vec<Cfg> {
             for (cs, ce) in [(false, false), (false, true), (true, true)] {
                 for co in [CompileOut::File, CompileOut::Dir, CompileOut::Stdout] {
                     for es in [false, true] {
-                        v.push(Cfg { parse_out: po, parse_stdin: ps, compile_stdin: cs, compile_explicit: ce, compile_out: co, exec_stdin: es });
+                        v.push(Cfg { parse_out: po, parse_stdin: ps, compile_stdin: cs, compile_explicit: ce, compile_out: co, exec_stdin: es, mislead: false });
+                        if !cs && ce && po == ParseOut::Stdout {
+                            v.push(Cfg { parse_out: po, parse_stdin: ps, compile_stdin: cs, compile_explicit: ce, compile_out: co, exec_stdin: es, mislead: true });
+                        }
                     }
                 }
             }
@@ -93,7 +99,10 @@ fn fail(kind: &str, stage: &str, fmt: &str, detail: String, case: &Value) -> Vio
 /// One staged pipeline under one configuration.
 fn staged(w: &mut Work, b: &Baseline, fmt: &str, cfg: &Cfg, case: &Value) -> Result<(), Violation> {
     let herr = |e: std::io::Error| Violation::new("harness-error", format!("cannot run fml: {}", e), json!({}));
-    let dir = w.sc.subdir("cfg");
+    // one directory per worker, reused for every program and configuration: artefacts are
+    // overwritten again and again by shorter and longer ones, as when a user rebuilds
+    let dir = w.sc.dir.join("stage");
+    std::fs::create_dir_all(&dir).unwrap();
     let input = dir.join("prog.fml");
     std::fs::write(&input, &b.src).unwrap();
     let what = format!("[{} {:?}]", fmt, cfg);
@@ -177,8 +186,10 @@ fn staged(w: &mut Work, b: &Baseline, fmt: &str, cfg: &Cfg, case: &Value) -> Res
         Some(match &ast_file {
             Some(f) => f.clone(),
             None => {
-                // stdout of parse was captured: store it under a name with the right extension
-                let f = dir.join(format!("captured.{}", fmt));
+                // stdout of parse was captured: store it under a name with the right extension -
+                // or, in the misleading configuration, under the extension of another format
+                let ext = if cfg.mislead { FORMATS[(FORMATS.iter().position(|x| *x == fmt).unwrap() + 1) % 3] } else { fmt };
+                let f = dir.join(format!("captured.{}", ext));
                 std::fs::write(&f, &ast_text).unwrap();
                 f
             }
@@ -286,7 +297,6 @@ fn staged(w: &mut Work, b: &Baseline, fmt: &str, cfg: &Cfg, case: &Value) -> Res
             case,
         ));
     }
-    let _ = std::fs::remove_dir_all(&dir);
     Ok(())
 }
 
@@ -341,7 +351,6 @@ fn judge_source(src: &str, depth: usize, cfgs: &[(usize, Cfg)], ctx: &mut Ctx, c
         for (fi, cfg) in cfgs {
             staged(w, &b, FORMATS[*fi], cfg, case)?;
         }
-        w.sc.clean();
         Ok(true)
     });
     match res {
@@ -381,7 +390,7 @@ impl Property for C06 {
         "C06"
     }
     fn rule(&self) -> String {
-        "cases: programs from the typed generator with the exotic profile (format strings over raw control characters incl. NUL, DEL, C1, NBSP, BOM, U+2028, astral and combining characters, YAML/S-expression/JSON metacharacters and look-alikes such as `null ~ true yes 1e3 0x1F .inf 2001-01-01 #t #nil`; identifiers such as nil t yes no on off y n NULL True NaN inf _; extreme integers), AST depth <= 25 by construction (deeper ones counted as excluded), plus a depth ladder 30..300 x {blocks, operators, calls, arrays, conditionals}. For each program `fml run` once, then per format {json, lisp, yaml} tape-chosen (quick: 2 per format) or all 180 (thorough) configurations of {-o file + --format, -o file.ext inferred, upper-case extension, -o dir + --format, stdout} x {file, stdin} for parse, {file inferred, file explicit, stdin explicit} x {-o file, -o dir, stdout} for compile, {file, stdin} for execute. oracle: every parse exits 0 and its text reloads in-process (same serde crate) to the parser's AST; compile succeeds exactly when run gets past compilation; bytes identical across formats/configurations and identical to compile(parse(src)) in-process; execute gives the same stdout and zero/non-zero status as run. non-trivial: the source contains a non-ASCII or control character or a format metacharacter, or nesting >= 10; distinct by source".into()
+        "cases: programs from the typed generator with the exotic profile (format strings over raw control characters incl. NUL, DEL, C1, NBSP, BOM, U+2028, astral and combining characters, YAML/S-expression/JSON metacharacters and look-alikes such as `null ~ true yes 1e3 0x1F .inf 2001-01-01 #t #nil`; identifiers such as nil t yes no on off y n NULL True NaN inf _; extreme integers), AST depth <= 25 by construction (deeper ones counted as excluded), plus a depth ladder 30..300 x {blocks, operators, calls, arrays, conditionals}. For each program `fml run` once, then per format {json, lisp, yaml} tape-chosen (quick: 2 per format) or all 210 (thorough) configurations of {-o file + --format, -o file.ext inferred, upper-case extension, -o dir + --format, stdout} x {file, stdin} for parse, {file inferred, file explicit, stdin explicit} x {-o file, -o dir, stdout} for compile, {file, stdin} for execute. oracle: every parse exits 0 and its text reloads in-process (same serde crate) to the parser's AST; compile succeeds exactly when run gets past compilation; bytes identical across formats/configurations and identical to compile(parse(src)) in-process; execute gives the same stdout and zero/non-zero status as run. non-trivial: the source contains a non-ASCII or control character or a format metacharacter, or nesting >= 10; distinct by source".into()
     }
     fn assumptions(&self) -> Vec<String> {
         vec![
